@@ -4,18 +4,27 @@ import MetricsVerif.Model.Recoverable
 namespace MetricsVerif.Driver.Recoverable
 open MetricsVerif.Driver MetricsVerif.Recoverable
 
-/-- thread program: calls joined by `+`: `e` emit, `i` into_inner, `d` drop handle -/
+/-- thread program: calls joined by `+`: `e` emit, `i` into_inner, `d` drop handle, `p` emission in which the
+    recorder panics, `n` emission in which the recorder emits again through the wrapper -/
 def progTok (s : String) : Option (List Call) :=
   if s == "-" then some [] else
   (s.splitOn "+").mapM (fun c =>
     match c with
-    | "e" => some Call.emit | "i" => some Call.intoInner | "d" => some Call.dropHandle | _ => none)
+    | "e" => some Call.emit | "i" => some Call.intoInner | "d" => some Call.dropHandle
+    | "p" => some Call.emitPanic | "n" => some Call.emitNested | _ => none)
 
 def schedTok (s : String) : Option (List Nat) :=
   if s == "-" then some [] else (s.splitOn ".").mapM String.toNat?
 
 def showRes : Res → String
   | .delivered => "delivered" | .ignored => "ignored" | .recovered => "recovered" | .dropped => "dropped"
+  | .panicked => "panicked" | .nestedDelivered => "nested-delivered" | .nestedIgnored => "nested-ignored"
+
+def cellTok (s : String) : Option (Option Nat) :=
+  if s == "~" then some none else s.toNat?.map some
+
+def showCell : Option Nat → String
+  | none => "~" | some g => toString g
 
 def handle (args : List String) : Option String :=
   match args with
@@ -27,6 +36,24 @@ def handle (args : List String) : Option String :=
         (step acc.1 tid, acc.2 ++ [lbl])) (init progs, [])
     let res := showList (fun (t : Thread) => showList showRes t.results |>.replace "," "+") s.threads
     pure s!"{".".intercalate labels} | {res} | finalised={s.finalised} recovered={s.recovered} late={s.enteredAfterEnd} busy={s.unwrapBusy}"
+  | ["install", cell, id] => do
+    let cell ← cellTok cell
+    let id ← id.toNat?
+    let (cell', out) := install cell id
+    match out with
+    | .installed => pure s!"cell={showCell cell'} installed"
+    | .handedBack r fin rec => pure s!"cell={showCell cell'} handed-back id={r} finalised={fin} recovered={rec}"
+  | ["free", progs] => do
+    -- a free-running round (no scheduler): what every schedule that runs all threads to the end agrees on
+    -- (theorems into_inner_exclusive, no_entry_after_end, finalised_at_most_once, inert_after_handle_drop_partial);
+    -- evaluated on the round-robin schedule
+    let progs ← listTok progTok progs
+    let n := progs.length
+    let fuel := 4 * (progs.foldl (fun a p => a + p.length + 1) 0) * (n + 1)
+    let sched := (List.range fuel).map (fun i => i % (max n 1))
+    let s := run (init progs) sched
+    let allDone := s.threads.all (fun t => t.pc == PC.done)
+    pure s!"done={allDone} finalised={s.finalised} recovered={s.recovered} late={s.enteredAfterEnd} busy={s.unwrapBusy}"
   | _ => none
 
 end MetricsVerif.Driver.Recoverable
